@@ -762,7 +762,7 @@ def readTierL (tt : List Char) : Except Err RawTier := do
   let d := splitL (kw ++ [' ', '[']) (kw ++ ['[']) 0 tt []
   let hdr := d.headD []
   let els := d.drop 1
-  let name ← needL (scanL "name".toList (textAfter false) hdr)
+  let name ← needL (scanL "name".toList (textAfter true) hdr)
   let st ← needL (scanL "xmin".toList (numAfter true) hdr)
   let en ← needL (scanL "xmax".toList (numAfter true) hdr)
   let entries ← els.mapM (readEntryL isI)
@@ -859,7 +859,7 @@ theorem readTierLong_eq (tt : List Char) : readTierLong tt.toArray = readTierL t
   simp only [hh, hd, matchText_eq _ _ _ (show 0 < (lit "name").size by decide),
     matchNum_eq _ _ _ (show 0 < (lit "xmin").size by decide), matchNum_eq _ _ _ (show 0 < (lit "xmax").size by decide),
     e1, e2, e3, need_map, mapM_map_toArray _ _ (readEntryLong_eq isI)]
-  cases needL (scanL "name".toList (textAfter false) (d.headD [])) with
+  cases needL (scanL "name".toList (textAfter true) (d.headD [])) with
   | error e => rfl
   | ok a =>
     cases needL (scanL "xmin".toList (numAfter true) (d.headD [])) with
